@@ -23,11 +23,11 @@ Definition check_spec (acc : N -> N -> bool) (corpus : segment) (q : query) (ids
    leaves: Compose.std_leaf_scorer, phrases through the algorithmic model Phrase.phrase_alg *)
 Definition model_ids_v (v : bool) (acc : N -> N -> bool) (segs : list segment) (sc : bool) (q : query) : list N :=
   nsort (flat_map (fun s => map (fun i => d_uid (doc_at s i))
-                               (collected s (collect_model s (alg_leaf_scorer_v acc s v) sc q))) segs).
+                               (collected s (collect_model s SHAPE (alg_leaf_scorer_v acc s v) sc q))) segs).
 Definition model_ids := model_ids_v false.
 
 Definition model_count_v (v : bool) (acc : N -> N -> bool) (segs : list segment) (sc : bool) (q : query) : N :=
-  fold_right (fun s n => N.of_nat (count_model_with acc s (alg_leaf_scorer_v acc s v) sc q) + n) 0 segs.
+  fold_right (fun s n => N.of_nat (count_model_with acc s SHAPE (alg_leaf_scorer_v acc s v) sc q) + n) 0 segs.
 Definition model_count := model_count_v false.
 
 (* ids_ns: DocSetCollector without scoring; ids_sc: collectors with scoring (TopDocs / for_each);
